@@ -161,6 +161,7 @@ func cmdRun(args []string) {
 	replay := fs.Bool("replay", false, "replay candidates natively")
 	prof := fs.String("cpuprofile", "", "write cpu profile")
 	onlyCase := fs.Int("case", -1, "run only this case index of parameterised harnesses")
+	ownerF := fs.String("owner", "", "property id: assertions of other properties are observed only (as in check mode)")
 	deadline := fs.Int("deadline", 0, "stop exploring after this many seconds")
 	fs.Parse(args)
 	if *prof != "" {
@@ -176,6 +177,7 @@ func cmdRun(args []string) {
 	}
 	fmt.Printf("loaded in %.1fs\n", time.Since(t0).Seconds())
 	cfg := defaultConfig(*tier)
+	cfg.Owner = *ownerF
 	cfg.Trace = *trace
 	cfg.NoMerge = *nomerge
 	cfg.EagerFeas = *eager
